@@ -995,3 +995,29 @@ def _(v):
     s1 = pre["s1"]
     v.prove("some_pair_close_implies_ENCOUNTER", z3.Implies(z3.And(0 <= jb, jb < ja, ja < Nr, enc(ja, jb)), r.status == ENC))
     v.prove("otherwise_status_kept", z3.Implies(z3.Not(z3.Exists([a, b], z3.And(0 <= b, b < a, a < Nr, enc(a, b)))), r.status == s1))
+
+
+@P.task("split.later_target_keeps_direction", fn=RAW)
+def _(v):
+    """Splitting clause, second call: the first call (forward, exact_finish_time=0, target tmax1) stopped at the first step
+    boundary t with tmax1 <= t < tmax1 + dt.  The user now asks for a LATER target tmax2 > tmax1.  For the split integration
+    to follow the trajectory of a single call to tmax2, the second call must continue forward with the same dt (or do
+    nothing if t already is at/past tmax2).
+    EXPECTED TO FAIL on the pinned tree when tmax1 < tmax2 < t (the new target lies inside the overshoot of the first call):
+    the prologue flips dt to -dt and integrates BACKWARDS to the first boundary <= tmax2
+    (native: dt=10, integrate(25) -> t=30, integrate(28) -> t=20, dt=-10; a single integrate(28) gives t=30)."""
+    s = mk(v)
+    tmax1 = v.real("tmax1")
+    v.assume(s.dt > 0, tmax1 <= s.t, s.t < tmax1 + s.dt, s.tmax > tmax1, s.tmax != INF, s.exact != 1)
+    v.assume(s.status == s.E(SUCCESS))
+    seen = []
+
+    def heartbeat(eng, st, args, n):
+        rd = lambda f: eng.read(st, Ptr(args[0].obj, (f,)))
+        seen.append(rd("dt"))
+        eng.write(st, Ptr(args[0].obj, ("status",)), s.E("REB_STATUS_USER"))     # stop right after the prologue
+    v.contract("reb_run_heartbeat", heartbeat)
+    v.contract(STEP, step_contract("fixed"))
+    v.loop(RAW, 0, unroll=2)
+    v.call(INTEGRATE, s.rp, s.tmax)
+    v.prove("second_call_continues_with_the_same_dt", seen[0] == s.dt)
